@@ -1518,6 +1518,19 @@ pub fn datalog_pathological() -> Vec<(String, String)> {
         v.push((format!("long-name-{}", d), format!("{}(1);", "a".repeat(d))));
         v.push((format!("long-string-{}", d), format!("f(\"{}\");", "\\\"".repeat(d))));
     }
+    // invalid sources made of multi-byte characters, at every byte alignment and over a range of lengths:
+    // whatever an error path does with the text it stopped on (echo, truncate, index) meets a character
+    // boundary somewhere in this sweep
+    for (cn, ch) in [("2byte", "é"), ("3byte", "€"), ("4byte", "𝄞")] {
+        for pad in 0..5usize {
+            for n in [20usize, 70, 130, 260, 400, 1030, 4100] {
+                let body = ch.repeat(n);
+                v.push((format!("utf8-garbage-{}-pad{}-{}", cn, pad, n), format!("{}{}", "a".repeat(pad), body)));
+                v.push((format!("utf8-unterminated-string-{}-pad{}-{}", cn, pad, n), format!("f(1);{}g(\"{}", " ".repeat(pad), body)));
+                v.push((format!("utf8-after-valid-{}-pad{}-{}", cn, pad, n), format!("f(\"{}\");{}check if {} ;", body, "x".repeat(pad), body)));
+            }
+        }
+    }
     let fixed: &[(&str, &str)] = &[
         ("scope-key-short", "check if true trusting ed25519/aabb;"),
         ("scope-key-short-rule", "f(1) <- g(1) trusting ed25519/aabb;"),
